@@ -303,6 +303,36 @@ def r04c(P, R):
                "the action for (location %s, variable %s) could not be evaluated (%s)" % (ek, vk, "/".join(got) or "no path"), loc=g.loc())
 
 
+SELECT_ONE = {"find", "rfind", "find_map", "next", "last", "nth", "first", "position", "rposition", "max_by_key", "min_by_key", "max_by", "min_by"}
+TEST_FOUND = {"is_some_and", "is_none_or", "map_or", "map_or_else", "filter", "and_then", "map", "is_ok_and"}
+NESTED_ITER = {"any", "all", "contains", "iter", "find", "position", "into_iter", "contains_key"}
+
+
+def first_match_then_test(P, pv, cond):
+    """In what `cond` is computed from: an existential question over a collection answered by picking ONE element with a test that
+    several elements can pass (a membership test in a sub-collection of the element, not a look-up by key) and then putting a
+    further test to that element only.  -> (selector, test) | None.  `find(key == x)` followed by a test is a keyed look-up and
+    is not reported; `find(..).is_some()/.is_none()` is a plain existence test."""
+    nodes = source_nodes(P, pv, cond)
+    for y in nodes:
+        if not (y.get("k") == "MethodCall" and y.get("method") in TEST_FOUND and any(a.get("k") == "Closure" for a in y["args"])):
+            continue
+        r = y["recv"]
+        if r.get("k") == "Path" and "local" in r:
+            srcs = [src for src, _ in pv.src.get(r["local"], []) if src is not None]
+            r = srcs[0] if len(srcs) == 1 else r
+        if not (r.get("k") == "MethodCall" and r.get("method") in SELECT_ONE):
+            continue
+        preds = [a for a in r["args"] if a.get("k") == "Closure"]
+        if not preds:
+            continue
+        # is the selecting predicate a membership test (it iterates something itself, possibly inside a helper)?
+        inner = source_nodes(P, pv, preds[0]["body"])
+        if any(z.get("k") == "MethodCall" and z.get("method") in NESTED_ITER for z in inner):
+            return r["method"], y["method"]
+    return None
+
+
 def r04d(P, R):
     """fragment applicability: every composite (scope, condition) pair has its own overlap test; no catch-all swallows a pair"""
     f, ri, ci = core_roles(P)
@@ -334,6 +364,7 @@ def r04d(P, R):
                 reporting = [evs for _, evs, _ in paths if ev_ctors(evs, "FragmentConditionNeverMatches")]
                 silent = [evs for _, evs, _ in paths if not ev_ctors(evs, "FragmentConditionNeverMatches")]
                 atoms = set()
+                first_only = None
                 for evs in reporting:
                     for e in evs:
                         if e[0] == "assume":
@@ -341,6 +372,13 @@ def r04d(P, R):
                             if fn.path not in provs:
                                 provs[fn.path] = MProv(fn)
                             atoms |= provs[fn.path].deep_atoms(node)
+                            first_only = first_only or first_match_then_test(P, provs[fn.path], node)
+                if first_only:
+                    R.violated("R04-d", key, "fragment applicability for (scope %s, condition %s) is decided by `.%s(<membership test>)` followed by `.%s(..)` "
+                               "on the element found: only the first candidate (in schema order) that passes the first test is asked the second "
+                               "question, where the overlap test must ask whether *any* candidate passes both — a valid spread is rejected when a "
+                               "later candidate is the common one" % (a, b, first_only[0], first_only[1]), loc=f.loc())
+                    continue
                 if not anchors_present(P, R, "R04-d", key, [(TSD + adt, fld) for adt, fld in want_reads[(a, b)]], loc=f.loc()):
                     continue
                 reads_ok = all(any(x[0] == "field" and x[1] == TSD + adt and x[2] == fld for x in atoms) for adt, fld in want_reads[(a, b)])
